@@ -1096,3 +1096,34 @@ func c13Check(w *smcWorld, plans []dwPlan, txs []dwTx, hsAt, closedAt time.Durat
 		e.Probe("spared-20-cycles")
 	}
 }
+
+// c10Client: the client side of C10 — application messages from the server
+// before, instead of and directly behind its CEA.
+func c10Client(e *Env) {
+	t := e.T
+	e.TrustWait = true
+	w := newSmcWorld(e, false)
+	defer w.teardown()
+	s := drawHsScript(w)
+	s.stallCER, s.disconnect = 0, ""
+	s.answerCER = 1
+	if t.Chance(3, 4) {
+		s.ceaKind = []string{"success", "success-vs"}[t.Draw(2)]
+	}
+	s.preApp = t.Chance(1, 2)
+	s.pipelined = t.Chance(1, 2)
+	if s.delay > w.I {
+		s.delay = w.I / 2
+	}
+	e.NonTrivial()
+	if !smcHandshake(w, s) {
+		return
+	}
+	if s.preApp {
+		e.Probe("app-before-cea-blocked")
+	}
+	if s.pipelined {
+		e.Probe("app-behind-cea-dispatched")
+	}
+	smcAfter(w, s)
+}
